@@ -85,6 +85,64 @@ def mk_handler(stub):
     return t
 
 
+C_LAYOUT = [("s_recv", 1), ("s_type", 2), ("s_req", 8), ("s_value", 16), ("new_token", 1), ("ack", 1),
+            ("rfr", 1), ("is_in", 1), ("is_out", 1), ("is_setup", 1), ("is_ping", 1), ("endpoint", 4),
+            ("s_len", 16), ("s_isin", 1), ("s_recipient", 5), ("rx_rfr", 1), ("gd_stall", 1), ("tx_ready", 1)]
+
+
+def mk_ctl():
+    """the real USBControlEndpoint(endpoint 0) with one StandardRequestHandler (and the multiplexer's StallOnly fallback); USBSetupDecoder
+    and the GET_DESCRIPTOR sub-handler replaced by port-only stubs (SetupPacket and `stall` become inputs).  Inputs on the control
+    endpoint's EndpointInterface, i.e. BEFORE its forwarding of tokens / handshakes to the request handlers."""
+    def build():
+        from amaranth import Elaboratable, Module, Signal
+        import luna.gateware.usb.usb2.control as ctlmod
+        from luna.gateware.usb.usb2.control import USBControlEndpoint
+        from luna.gateware.usb.request.standard import StandardRequestHandler
+        from luna.gateware.usb.request import SetupPacket
+        from luna.gateware.usb.stream import USBInStreamInterface
+        from luna.gateware.usb.usb2.packet import DataCRCInterface, TokenDetectorInterface, InterpacketTimerInterface
+        from luna.gateware.interface.utmi import UTMIInterface
+
+        class StubDecoder(Elaboratable):
+            def __init__(self):
+                self.data_crc = DataCRCInterface(); self.tokenizer = TokenDetectorInterface()
+                self.timer = InterpacketTimerInterface(); self.speed = Signal(2)
+                self.packet = SetupPacket(); self.ack = Signal()
+            def elaborate(self, platform): return Module()
+
+        class StubDesc(Elaboratable):
+            def __init__(self):
+                self.value = Signal(16); self.length = Signal(16); self.start = Signal(); self.start_position = Signal(11)
+                self.tx = USBInStreamInterface(); self.stall = Signal()
+            def elaborate(self, platform): return Module()
+        dec = StubDecoder(); desc = StubDesc()
+
+        class Std(StandardRequestHandler):
+            def get_descriptor_handler_submodule(self): return desc
+
+        class Ctl(USBControlEndpoint):
+            def elaborate(self, platform):
+                o = ctlmod.USBSetupDecoder; ctlmod.USBSetupDecoder = lambda *a, **k: dec
+                try: return super().elaborate(platform)
+                finally: ctlmod.USBSetupDecoder = o
+        std = Std(descriptors(), max_packet_size=64)
+        d = Ctl(utmi=UTMIInterface(), endpoint_number=0, max_packet_size=64)
+        d.add_request_handler(std)
+        i = d.interface; tk = i.tokenizer; sp = dec.packet
+        ins = [("s_recv", sp.received), ("s_type", sp.type), ("s_req", sp.request), ("s_value", sp.value),
+               ("new_token", tk.new_token), ("ack", i.handshakes_in.ack),
+               ("rfr", tk.ready_for_response), ("is_in", tk.is_in), ("is_out", tk.is_out), ("is_setup", tk.is_setup),
+               ("is_ping", tk.is_ping), ("endpoint", tk.endpoint), ("s_len", sp.length), ("s_isin", sp.is_in_request),
+               ("s_recipient", sp.recipient), ("rx_rfr", i.rx_ready_for_response), ("gd_stall", desc.stall), ("tx_ready", i.tx.ready)]
+        assert [n for n, _ in ins] == [n for n, _ in C_LAYOUT]
+        outs = [("address_changed", i.address_changed), ("new_address", i.new_address), ("config_changed", i.config_changed),
+                ("new_config", i.new_config), ("status_requested", std.interface.status_requested)]
+        return d, ins, outs
+    t = SlicedTarget("ctl", build); t.kind = "ctl"
+    return t
+
+
 def mk_regs():
     def build():
         from amaranth import Elaboratable, Module, Signal
@@ -148,8 +206,10 @@ def build_device():
            ("session_end", u.session_end), ("connect", d.connect), ("tx_ready", u.tx_ready), ("signal", sig.signal)]
     outs = [("active_address", ctl.interface.active_address), ("active_config", ctl.interface.active_config),
             ("s_recv", h.interface.setup.received), ("s_type", h.interface.setup.type), ("s_req", h.interface.setup.request),
-            ("s_value", h.interface.setup.value), ("new_token", h.interface.tokenizer.new_token),
-            ("status_req", h.interface.status_requested), ("ack", h.interface.handshakes_in.ack), ("bus_reset", d.reset_detected),
+            # tokens and handshakes as the DEVICE delivers them to the control endpoint (EndpointInterface), not as the control
+            # endpoint forwards them to its request handlers: the forwarding is part of what is checked
+            ("s_value", h.interface.setup.value), ("new_token", ctl.interface.tokenizer.new_token),
+            ("status_req", h.interface.status_requested), ("ack", ctl.interface.handshakes_in.ack), ("bus_reset", d.reset_detected),
             # wire level, for the host script and for the reader of a replay (not read by the monitors)
             ("tx_valid", u.tx_valid), ("tx_data", u.tx_data)]
     return d, ins, outs
@@ -163,10 +223,10 @@ def mk_device():
 def targets(tier):
     if os.environ.get("C08_ONLY"):
         want = os.environ["C08_ONLY"].split(",")
-        return [t for t in (mk_handler(True), mk_handler(False), mk_regs(), mk_device()) if t.kind in want]
+        return [t for t in (mk_handler(True), mk_handler(False), mk_ctl(), mk_regs(), mk_device()) if t.kind in want]
     if tier == "quick":
-        return [mk_handler(True), mk_regs(), mk_device()]
-    return [mk_handler(True), mk_handler(False), mk_regs(), mk_device()]
+        return [mk_handler(True), mk_ctl(), mk_regs(), mk_device()]
+    return [mk_handler(True), mk_handler(False), mk_ctl(), mk_regs(), mk_device()]
 
 
 # ------------------------------------------------------------------------------------------------------
@@ -343,6 +403,18 @@ def device_script(rng, kind):
 
     async def script(h):
         await h.idle(rng.choice([2, 4]))
+        if kind == "lostack":             # status ZLP sent, the host's ACK lost, and the very next transaction is an ACKed IN elsewhere
+            reqs = [(5, rng.choice([0x31, 0x1B1, 0x55])), (9, rng.choice([1, 0xB1, 0x1FF]))]
+            if rng.random() < 0.5: reqs.reverse()
+            for req, value in reqs:
+                await set_request(h, req, value, interleave=False, lose_ack=True)
+                await h.in_xact(1, ack=True)
+                await h.idle(rng.choice([1, 3]))
+                await other_traffic(h, 0.4)
+                if rng.random() < 0.5:    # the host retries the status stage and this time its ACK arrives
+                    data = await h.in_xact(0, ack=True)
+                    if len(data) >= 3 and req == 5: h.addr = value & 0x7f
+            return
         if kind == "interleave":          # the case the unit tests never produce
             await set_request(h, 5, rng.choice([0x31, 0x1B1, 0x7F, 0x01]))
             await other_traffic(h, 0.5)
@@ -383,7 +455,7 @@ def device_traces(rng, n):
     out = []
     for k in range(n):
         h = Host(rng)
-        out.append(h.run(device_script(rng, "interleave" if k % 4 == 0 else "mixed")))
+        out.append(h.run(device_script(rng, "interleave" if k % 4 == 0 else "lostack" if k % 4 == 1 else "mixed")))
     return out
 
 
@@ -417,6 +489,52 @@ def handler_traces(rng, n):
     return out
 
 
+PIDF = {"IN": dict(is_in=1), "OUT": dict(is_out=1), "SETUP": dict(is_setup=1), "PING": dict(is_ping=1)}
+
+
+def ctl_traces(rng, n):
+    """event-level control transfers with foreign tokens / ACKs in between (setup fields stable between `received` strobes)"""
+    out = []
+    for k in range(n):
+        tr = []
+        cur = dict(s_type=0, s_req=0, s_value=0, s_len=0, s_isin=0, s_recipient=0)
+        tok = dict(endpoint=0)
+        def cyc(**kw):
+            c = dict(s_recv=0, new_token=0, ack=0, rfr=0, is_in=0, is_out=0, is_setup=0, is_ping=0, rx_rfr=0,
+                     gd_stall=int(rng.random() < 0.05), tx_ready=rng.randrange(2))
+            c.update(cur); c.update(tok); c.update(kw); return c
+        def token(pid, ep, respond=True):
+            nonlocal tok
+            tok = dict(endpoint=ep); tok.update(PIDF[pid])
+            tr.append(cyc(new_token=1))
+            for _ in range(rng.randint(1, 3)): tr.append(cyc())
+            if respond: tr.append(cyc(rfr=1))
+            for _ in range(rng.randint(0, 2)): tr.append(cyc())
+        for _ in range(rng.randint(2, 6)):
+            token("SETUP", rng.choice([0, 0, 0, 2]), respond=False)
+            cur = dict(s_type=rng.choice([0, 0, 0, 2]), s_req=rng.choice([5, 9, 5, 9, 6, 0, 3, rng.randrange(256)]),
+                       s_value=rng.choice(H_VALUES + [rng.randrange(65536)]), s_len=rng.choice([0, 0, 0, 2, 18]),
+                       s_isin=rng.randrange(2), s_recipient=rng.choice([0, 2]))
+            tr.append(cyc(s_recv=1))
+            for _ in range(rng.randint(1, 6)):
+                r = rng.random()
+                if r < 0.45:
+                    token("IN", 0)
+                    if rng.random() < 0.7: tr.append(cyc(ack=1))
+                elif r < 0.75:
+                    token("IN", rng.choice([1, 2]))
+                    if rng.random() < 0.8: tr.append(cyc(ack=1))
+                elif r < 0.9:
+                    token("OUT", rng.choice([0, 0, 1]), respond=False)
+                    for _ in range(rng.randint(1, 3)): tr.append(cyc())
+                    tr.append(cyc(rx_rfr=1))
+                else:
+                    tr.append(cyc(ack=1))
+        tr.append(cyc())
+        out.append(tr)
+    return out
+
+
 def regs_traces(rng, n):
     out = []
     for k in range(n):
@@ -438,6 +556,8 @@ def traces(target, rng, tier):
         return handler_traces(rng, 30 if q else 200)
     if target.kind == "regs":
         return regs_traces(rng, 20 if q else 100)
+    if target.kind == "ctl":
+        return ctl_traces(rng, 20 if q else 100)
     return device_traces(rng, 16 if q else 120)
 
 
@@ -479,6 +599,22 @@ def handler_alphabet(tier, spec=False):
     desc = (f"setup.type in {types}, request in {reqs}, value in {[hex(v) for v in vals]}, length in {lens}, recipient in {recs}, "
             f"all {1 << nbits} combinations of {'/'.join(names)}" + ("" if nbits == 7 else " (other inputs 0)"))
     return letters, desc
+
+
+def ctl_alphabet(tier):
+    """explicit product alphabet for the control-endpoint target: setup fields x token state x strobes"""
+    import itertools
+    vals = [0x01B1] if tier == "quick" else [0x01B1, 0x0100]
+    fparts = [pack(C_LAYOUT, dict(s_type=ty, s_req=rq, s_value=vl)) for ty, rq, vl in itertools.product([0, 2], [5, 9, 3], vals)]
+    pids = ["IN", "SETUP"] if tier == "quick" else ["IN", "OUT", "SETUP"]
+    tparts = []
+    for (nt, rf), pid, ep in itertools.product([(0, 0), (1, 0), (0, 1)], pids, [0, 1]):
+        c = dict(new_token=nt, rfr=rf, endpoint=ep); c.update(PIDF[pid]); tparts.append(pack(C_LAYOUT, c))
+    bparts = [pack(C_LAYOUT, dict(s_recv=b & 1, ack=(b >> 1) & 1)) for b in range(4)]
+    expr = (f"flat_map (fun f => flat_map (fun t => map (fun b => f + t + b) {nl(bparts)}) {nl(tparts)}) {nl(fparts)}")
+    desc = (f"setup.type in [0, 2], request in [5, 9, 3], value in {[hex(v) for v in vals]}, wLength 0; token {pids} for endpoint 0 / 1 with "
+            f"new_token, ready_for_response or neither; every received / ack combination (other inputs 0)")
+    return expr, desc
 
 
 R_LAYOUT = [("a_address_changed", 1), ("a_new_address", 7), ("a_config_changed", 1), ("a_new_config", 8),
@@ -527,6 +663,17 @@ def obligations(targets, tier):
                                          "sub-handler, unrestricted field values)"))
             obs.append(tie.corr("corr_handler_full", t, mstep="hd_step", m0="h_init",
                                 describe="unmodified StandardRequestHandler (real GET_DESCRIPTOR sub-handler) vs request-handler model on simulator traces"))
+        elif t.kind == "ctl":
+            cexpr, cdesc = ctl_alphabet(tier)
+            obs.append(tie.rmon("ob_ctl_spec", t, mon="ctl_spec_mon", m0="dev_spec_m0", alpha_bits=0, alphabet=cexpr, fuel=3000,
+                                describe="USBControlEndpoint + StandardRequestHandler (sliced netlist; inputs on the control endpoint's EndpointInterface, "
+                                         "so its forwarding of tokens / handshakes to the request handlers is inside): the address/configuration "
+                                         "write strobes leaving the control endpoint are exactly the commits of the SPECIFICATION, where `token` is "
+                                         "ANY new_token the device delivers (whatever its endpoint) and status_requested is observed; all traces "
+                                         "over: " + cdesc + "; environment: setup fields stable unless received"))
+            obs.append(tie.cmon("cmon_ctl_spec", t, mon="ctl_spec_mon", m0="dev_spec_m0",
+                                describe="the same specification monitor over event-level simulator traces of that target with unrestricted field "
+                                         "values, data stages, OUT/PING tokens, rx_ready_for_response"))
         elif t.kind == "regs":
             letters, desc = regs_alphabet(tier)
             obs.append(tie_alpha.rlock_alpha(
